@@ -45,10 +45,31 @@ def coherence(h):
     return out
 
 
+def extra_hints():
+    """hints outside the modelled grammar whose wrappers synthesise their children (TypeVars, callables, NewTypes, generics)"""
+    import collections.abc as cabc
+    import typing
+    T = typing.TypeVar('T')
+    TB = typing.TypeVar('TB', bound=int)
+    TS = typing.TypeVar('TS', bound=typing.Sequence)
+    TC = typing.TypeVar('TC', int, str)
+
+    class G(typing.Generic[T]):
+        pass
+    return {'TypeVar': T, 'TypeVar_bound_int': TB, 'TypeVar_bound_Sequence': TS, 'TypeVar_constrained': TC,
+            'Callable[..., str]': typing.Callable[..., str], 'Callable[[], int]': typing.Callable[[], int],
+            'Callable[[int], str]': typing.Callable[[int], str], 'Callable[[int, str], bool]': cabc.Callable[[int, str], bool],
+            'NewType(int)': typing.NewType('N', int), 'G[int]': G[int], 'List[T]': typing.List[T],
+            'Dict[str, TB]': typing.Dict[str, TB], 'Optional[TC]': typing.Optional[TC]}
+
+
 def main():
     warnings.simplefilter('ignore')
     payload = json.load(sys.stdin)
     out = []
+    if payload.get('extra_coherence'):
+        print(json.dumps([{name: coherence(h) for name, h in extra_hints().items()}]))
+        return
     for case in payload['cases']:
         hs = [U.hint_to_python(h) for h in case['hints']]
         res = {'pairs': {}}
